@@ -227,6 +227,8 @@ def _fault(ctx, C, p):
             return "not-reached"
         if not recovering and kind in ("read", "short"):
             ctx.check("a failed/short read does not yield a value silently", False)
+        if not recovering:
+            ctx.check("a %s fault that goes unreported must not change the result (silently wrong value)" % kind, ref.ok and _same(ctx, r.value, ref.value))
         return "recovered"
     # build
     try:
@@ -252,6 +254,7 @@ def _fault(ctx, C, p):
         return "not-reached"
     if kind == "write":
         ctx.check("a failed write does not go unnoticed", False)
+    ctx.check("a %s fault that goes unreported must not change the bytes written" % kind, ctx.eq(fs.getvalue(), base.getvalue()))
     return "recovered"
 
 
